@@ -276,6 +276,29 @@ def judge_stretched(suffix, with_idle, order_seed, rng):
             continue
         if [(p.name, p.kind) for p in g.parameters] != [(pn, gateset.KIND[k]) for pn, k in gateset_sig.RAW[name][0]]:
             fails.append(("stretched_gates-modified-parent-parameters", {"gate": name}))
+        # the variant is CALLED with the parent's arguments plus the factor, never without it
+        from jaqalpaq.core import Register
+
+        reg = Register("sr", 8)
+        pargs, qi = [], 0
+        for p_ in g.parameters:
+            if p_.kind == ParamType.QUBIT:
+                pargs.append(reg[qi])
+                qi += 1
+            else:
+                pargs.append(2 if p_.kind == ParamType.INT else 0.5)
+        good = try_call(sg, args=pargs + [1.5])
+        goodk = try_call(sg, kwargs={p_.name: a for p_, a in zip(sg.parameters, pargs + [1.5])})
+        short = try_call(sg, args=pargs)
+        if good[0] != "ok" or goodk[0] != "ok":
+            fails.append(("stretched-gate-rejects-call-with-factor", {"gate": name, "positional": str(good[:2])[:120], "keyword": str(goodk[:2])[:120],
+                                                                       "parent-used-before": bool(order_seed % 2)}))
+        elif list(good[1].parameters.values())[-1] != 1.5 or len(good[1].parameters) != len(g.parameters) + 1:
+            fails.append(("stretched-gate-statement-without-factor", {"gate": name}))
+        if short[0] == "ok":
+            fails.append(("stretched-gate-accepts-call-without-factor", {"gate": name, "parent-used-before": bool(order_seed % 2)}))
+        elif short[0] == "exc":
+            fails.append(("stretched-gate-rejection-is-not-JaqalError:" + short[1], {"gate": name}))
         if g.ideal_unitary is None:
             if sg.ideal_unitary is not None:
                 fails.append(("stretched-unitary-for-unitaryless-gate", {"gate": name}))
